@@ -173,7 +173,12 @@ class WebSocketWriter:
     def _get_compressor(self, compress: int | None) -> ZLibCompressor:
         """Get or create a compressor object for the given compression level."""
         if compress:
-            # Do not set self._compress if compressing is for this frame
+            # Do not set self._compress if compressing is for this frame.
+            # The peer inflates this frame with the same context as every
+            # other frame, so its sliding window moves on; the shared
+            # compressor cannot refer to its old window any more and is
+            # dropped (the next message starts a fresh deflate context).
+            self._compressobj = None
             return ZLibCompressor(
                 level=ZLibBackend.Z_BEST_SPEED,
                 wbits=-compress,
